@@ -7,6 +7,21 @@ ROOT = os.path.dirname(HERE)
 
 # property -> (level category, technique, level text, level note, design ref)
 CHECKS = {
+    "C06": ("exploration",
+            "configuration-matrix workload with a policy-model oracle, agreement / prefix-stream monitors, a passive reference GM/T 0024 decoder over the tapped wire and key log, and crypto/tls as independent peer",
+            "Runs gmtls client/server pairs over an in-memory tapped transport for the matrix server mode x client kind x suites x preference x ClientAuth x client certificate x certificate source x tickets (GM part full-factorial in thorough), plus TLS 1.0-1.2 suites against crypto/tls in both roles; a policy model from the property text says must-complete / must-fail / unspecified; both ends must agree on ConnectionState and ExportKeyingMaterial; position-tagged payloads (to 200 KiB, seeded fragment plans, both directions concurrently) must arrive as exact prefixes; every GMSSL session is re-derived by the reference decoder (record MAC/tag under index-as-sequence-number, Finished values, ServerKeyExchange signature, pre-master recovery, plaintext equality).",
+            "Trusted: policy model, /verif/ref TLCP decoder (self-consistent reading of GM/T 0024 over ref SM2/SM3/SM4, not certified), Go crypto/tls. ECDHE-SM2 completion is unspecified.",
+            "DESIGN.md §5 C06"),
+    "C07": ("fault_enumeration",
+            "fault catalogue applied by an interposing transport to live GMSSL sessions with prefix-stream / sticky-error / exact-byte-count monitors, exhaustive white-box bit flips through the halfConn hook, reference-built padding cases, passive nonce monitors",
+            "One fault (bit flip per region, truncation/extension, swap, duplicate, drop, cross-direction and cross-connection injection, header rewrites, early end of stream) is applied to one application record of a real session; the receiver must deliver exactly the bytes of the records before the affected one (count taken from the reference decoder), return a fatal sticky error and never a wrong byte. White box: every bit of every record for payload sizes {0,1,15,16,17,31,32,100} at sequence numbers 0 and 3, sampled to 16384 bytes, replay/out-of-order, all CBC padding lengths 0..255 built by the reference and each corrupted MAC/padding/length byte, GCM nonce = sequence counter; passive IV-uniqueness over all sessions.",
+            "Trusted: /verif/ref TLCP record layer. Header length bytes are judged only in the black-box layer.",
+            "DESIGN.md §5 C07"),
+    "C15": ("fault_enumeration",
+            "scripted reference peer with one deviation per run; differential oracle against a strict reference endpoint; panic capture; logical deadlock breaker and closed-input watchdog",
+            "A reference GM/T 0024 client/server plays an otherwise honest handshake against the gmtls client and the GMSSL-only, auto-switch and TLS-only servers with one deviation at one step: omit/repeat, every handshake type out of turn, CCS/alerts/application data/unknown record types/SSLv2 header at every step, oversize and empty records, every truncation, handshake-length and per-byte field perturbations, certificate-list variants (RSA, single, empty, garbage, P-256), end of stream after every step, ClientHello versions 0x0000..0x0400 x suite and compression lists. Whenever the strict reference endpoint refuses the same script, gmtls must return an error, never complete, never panic, and return once its input has ended.",
+            "Trusted: strict reference endpoint as the definition of 'deviates'. Scripts it completes are not judged; no-op deviations are detected per run and not judged.",
+            "DESIGN.md §5 C15"),
     "C18": ("fault_enumeration",
             "derivation catalogue per decoder executed under panic capture, per-call thread-CPU budget with a CPU-based hang watcher, and serial allocation sampling",
             "For each of ~55 decoders of untrusted bytes (incl. the 16 TLS handshake message decoders, session state and ticket decryption through the verif hooks) takes valid encodings produced by the library and derives every truncation, single-byte substitutions from {00,01,7f,80,ff,b^1,b^80} (all seven in thorough), every TLV length rewritten to {0,len-1,len+1,0x80,0x84ffffffff,0x847fffffff}, universal tag swaps, BER nesting to depth 10^4 (definite, indefinite, unterminated), empty and random inputs; each call runs in a child process with recover(), a thread-CPU budget of 2 s + 1 us/byte, and a watcher that turns 20 s of CPU in one call into a verdict; allocations are sampled serially against 64*len + 8 MiB.",
